@@ -42,6 +42,8 @@ package unserializers
 //@   ensures [C05:cdx:counterMonotone] *cc >= old(*cc)
 //@   ensures [C05:cdx:counterStrict] result1 == nil ==> *cc >= old(*cc) + 1
 //@   invariant L0: [C05:inv] *cc >= old(*cc) + 1 + _i
+//@   ensures [C05:cdx:rootsClosed] result1 == nil ==> sbom.closedRoots(result0)
+//@   invariant L0: [C05:inv] sbom.closedRoots(nl)
 //@   requires component != nil && cc != nil
 //@   assigns cc.*
 //@   owns
